@@ -115,22 +115,17 @@ def rule_messages(rep: Report, rid="C14.msg") -> None:
     has = ("cmp", "In", const("column"), tl)
     col = ("item", tl, const("column"))
     ok = False
-    dec = nf.decisions(loc) if loc is not None else None
-    if dec:
-        ok = True
-        for a, leaf in dec:
-            if set(a) - {has, col}:
-                ok = False
-                break
-            if a.get(has, False) and a.get(col, False):
-                ok = ok and leaf == tl
-            elif has in a and (a[has] and col not in a):
-                ok = False
-            else:
-                d = nf.resolve_ref_dict(I, leaf, tree)
-                ok = ok and d is not None and set(d) == {"line", "column"} and d["line"][0] == ("item", tl, const("line")) \
-                    and lin_eq(d["column"][0], ("binop", "Add", ("attr", line, N.INDENT), const(1)))
-        ok = ok and has in dec[0][0] and col in dec[0][0]
+    if loc is not None:
+        # decided over what a token's column can be: absent (no matcher claimed the line) or a 1-based position - however the
+        # test is spelt (truthiness, ``is not None``, ``!= 0``, ``.get``)
+        def fallback(leaf):
+            d = nf.resolve_ref_dict(I, leaf, tree) if isinstance(leaf, tuple) and leaf and leaf[0] == "ref" else None
+            return d is not None and set(d) == {"line", "column"} and d["line"][0] == ("item", tl, const("line")) \
+                and lin_eq(d["column"][0], ("binop", "Add", ("attr", line, N.INDENT), const(1)))
+        get1, get2 = ("call", ".get", (tl, const("column")), ()), ("call", ".get", (tl, const("column"), NONE), ())
+        absent = nf.simplify(I, loc, {has: const(False), get1: NONE, get2: NONE})
+        present = {nf.simplify(I, loc, {has: const(True), col: const(v), get1: const(v), get2: const(v)}) for v in (1, 2, 9, 120)}
+        ok = fallback(absent) and present == {tl}
     rep.ob("C04.err" if rid.startswith("C04") else rid, "an unexpected-line error is located at the token's own location, falling back to (line, indent + 1) when no column was set",
            ok, **kw, expected="token.location if it has a column else {'line': token line, 'column': token.line.indent + 1}", found=fmt(loc, I) if loc else None)
     # UnexpectedEOFException
